@@ -249,19 +249,21 @@ func (ht *linearHashTable[K, V]) Equal(rhs SymbolTable[K, V]) bool {
 
 // All returns an iterator sequence containing all the key-values in the hash table.
 func (ht *linearHashTable[K, V]) All() iter.Seq2[K, V] {
-	// Create a list of indices representing the entries.
-	indices := make([]int, len(ht.entries))
-	for i := range indices {
-		indices[i] = i
-	}
-
-	// Shuffle the indices list to randomize the order in which entries are traversed.
-	// This ensures that the traversal order is non-deterministic, reflecting the unordered nature of hash table.
-	r.Shuffle(len(indices), func(i, j int) {
-		indices[i], indices[j] = indices[j], indices[i]
-	})
-
+	// The indices are listed and shuffled when the sequence is run, not when it is obtained:
+	// a sequence kept across changes of the collection must see the collection as it is then.
 	return func(yield func(K, V) bool) {
+		// Create a list of indices representing the entries.
+		indices := make([]int, len(ht.entries))
+		for i := range indices {
+			indices[i] = i
+		}
+
+		// Shuffle the indices list to randomize the order in which entries are traversed.
+		// This ensures that the traversal order is non-deterministic, reflecting the unordered nature of hash table.
+		r.Shuffle(len(indices), func(i, j int) {
+			indices[i], indices[j] = indices[j], indices[i]
+		})
+
 		for _, i := range indices {
 			if e := ht.entries[i]; e != nil {
 				if !yield(e.Key, e.Val) {
